@@ -135,6 +135,7 @@ package rapidcore
 //@   safety on
 //@   requires s != nil && invoke != nil
 //@   ensures [exactly-one-report] delta(ReleaseFailedSent) + delta(ReleaseSucceededSent) <= 1 && (delta(ReserveRefused) == 1 ==> delta(ReleaseFailedSent) == 1 && delta(ReleaseAwaited) == 0)
+//@   ensures [a-refused-caller-touches-nothing] delta(ReserveRefused) == 1 ==> delta(ServerReleased) == 0 && delta(ServerReset) == 0 && delta(ReleaseSucceededSent) == 0
 //@   ensures [done-failed-resets-before-reporting] delta(ReleaseAwaitedFailedDone) == 1 ==> delta(ServerReset) == 1 && lastarg(ServerReset, 1) == autoresetReasonReleaseFail && delta(ReleaseFailedSent) == 1 && first(ServerReset) < first(ReleaseFailedSent)
 
 
